@@ -31,6 +31,7 @@ pub const D_INTO_BOXED: u8 = 10;
 pub const D_INTO_SLICE: u8 = 11;
 pub const D_FORGET_DRAIN: u8 = 12;
 pub const D_DROP_ONLY: u8 = 13;
+pub const D_DRAIN_NTH: u8 = 14;
 
 /// Vec<D> with ids 0,1,2; one operation; container drop; arena stays (no destructor runs there).
 pub fn dl<const OP: u8>() {
@@ -110,6 +111,20 @@ pub fn dl<const OP: u8>() {
                             k += 1;
                         }
                     }
+                }
+                D_DRAIN_NTH => {
+                    // stepping over drained items (nth / skip / step_by) still drops them
+                    let v = vo.as_mut().unwrap();
+                    kani::assume(i <= 2);
+                    let mut d = v.drain(0..3);
+                    let x = d.nth(i);
+                    vassert!(x.is_some(), "NEVER: [C13] Drain::nth returned None inside the range");
+                    if let Some(x) = x {
+                        vassert!(x.0 as usize == i && DROPS[i] == 0, "NEVER: [C15] item returned by Drain::nth already dropped (or wrong item)");
+                        drop(x);
+                    }
+                    drop(d);
+                    vassert!(DROPS[0] == 1 && DROPS[1] == 1 && DROPS[2] == 1, "NEVER: [C15] drained items stepped over by nth() were not dropped exactly once");
                 }
                 D_INTO_ITER => {
                     let front: usize = kani::any();
@@ -411,6 +426,7 @@ dh!(dl_split_off, 10, dl::<D_SPLIT_OFF>());
 dh!(dl_into_boxed, 10, dl::<D_INTO_BOXED>());
 dh!(dl_into_slice, 10, dl::<D_INTO_SLICE>());
 dh!(dl_drop_only, 10, dl::<D_DROP_ONLY>());
+dh!(dl_drain_nth, 10, dl::<D_DRAIN_NTH>());
 dh!(bx_basic_h, 10, bx_basic());
 dh!(bx_partial_ord_h, 10, bx_partial_ord());
 dh!(bx_downcast_h, 10, bx_downcast());
@@ -420,3 +436,38 @@ dh!(bx_from_vec_spare_h, 36, bx_from_vec_spare());
 // (A Vec of zero-sized elements with a destructor cannot be analysed: Kani 0.68 rejects the
 // dangling-pointer arithmetic of zero-sized IntoIter with "does not support reasoning about
 // pointer to unallocated memory"; measured, see DESIGN.)
+
+/// Boxed slices of zero-sized elements with a destructor: length checks must not be byte-based.
+pub static mut ZB: usize = 0;
+pub struct Zb;
+impl Drop for Zb {
+    fn drop(&mut self) {
+        unsafe {
+            ZB += 1;
+        }
+    }
+}
+pub fn bx_slices_zst() {
+    let mut back = Backing::<304>([0u8; 304]);
+    unsafe {
+        ZB = 0;
+        let c = small_chunk::<1>(back.0.as_mut_ptr(), 256, 200);
+        let bump = mk_bump::<1>(c.footer, None);
+        let b: &Bump = &bump;
+        let arr = BBox::new_in([Zb, Zb, Zb], b);
+        let sl: BBox<[Zb]> = arr.into();
+        let r2: Result<BBox<[Zb; 2]>, BBox<[Zb]>> = BBox::try_from(sl);
+        match r2 {
+            Ok(_) => {
+                vassert!(false, "NEVER: [C15,C17] a boxed slice of 3 zero-sized elements was accepted as an array of 2");
+            }
+            Err(s) => {
+                vassert!(s.len() == 3 && ZB == 0, "NEVER: [C17] refused conversion changed or dropped elements");
+                drop(s);
+                vassert!(ZB == 3, "NEVER: [C15,C17] boxed slice of zero-sized elements did not drop each element exactly once");
+            }
+        }
+        kani::cover!(true, "REACH: end of harness");
+    }
+}
+dh!(bx_slices_zst_h, 10, bx_slices_zst());
